@@ -34,6 +34,10 @@ BINOPS = {"Add": "+", "AddWithOverflow": "+", "AddUnchecked": "+", "Sub": "-",
 CMPOPS = {"Gt": ">", "Ge": ">=", "Lt": "<", "Le": "<=", "Eq": "==", "Ne": "!="}
 
 
+# names introduced by compiler desugarings (`?`, `for`, format_args!), not by the programmer
+DESUGAR_NAMES = {"val", "residual", "iter", "__next", "args", "e", "err"}
+
+
 def short(name):
     """last path segments for display"""
     return name
@@ -459,7 +463,7 @@ class FnView:
         e = self._local_expr(local, depth)
         if self.keep_names and e[0] not in ("param", "var", "let"):
             n = self.b.local_name(local)
-            if n is not None:
+            if n is not None and n not in DESUGAR_NAMES:
                 e = ("let", n, e)
         self._expr_cache[key] = e
         return e
